@@ -157,6 +157,8 @@ def den(e, st):
                 parts.append(fit(v, hi - lo))
             return parts[0] if len(parts) == 1 else z3.Concat(*reversed(parts))
         for (x, lo, hi) in slots:
+            if hi <= lo:
+                continue            # empty slot (already recorded as an issue)
             v = fit(fit(den(x, st), hi - lo), w)
             res = res | (v << (lo - lo0))
         return res
